@@ -41,6 +41,7 @@ type RpcCall struct {
 	StartUs    int    `json:"start_us"`
 	CancelUs   int    `json:"cancel_us,omitempty"` // the caller cancels its context after this long (0: never)
 	Skip       bool   `json:"skip,omitempty"`      // channel kind: the handler returns SkipResponse (no response message)
+	Probe      bool   `json:"probe,omitempty"`     // recovery probe: issued alone after everything else has ended (fault scenarios)
 }
 
 type RpcPlan struct {
@@ -151,6 +152,10 @@ type rpcRun struct {
 	errsAtTeardown, panicsAtTeardown int
 	tornDown                         bool
 	stranded                         int
+	extra                            func(r *rpcRun, clients []rpc.Client, srv rpc.Server)
+	tap                              func(conn, dir int, data []byte)
+	postNet                          func(net *simnet.Net)
+	leaked                           []string
 }
 
 const (
@@ -433,7 +438,15 @@ func (rpcScn) Run(t *testing.T, seed uint64, plan any, o RunOpts) *Report {
 }
 
 func runRpc(t *testing.T, seed uint64, p *RpcPlan, o RunOpts, extra func(r *rpcRun, clients []rpc.Client, srv rpc.Server)) *Report {
+	return runRpcX(t, seed, p, o, func(r *rpcRun) { r.extra = extra })
+}
+
+func runRpcX(t *testing.T, seed uint64, p *RpcPlan, o RunOpts, setup func(r *rpcRun)) *Report {
 	r := &rpcRun{p: p}
+	if setup != nil {
+		setup(r)
+	}
+	extra := r.extra
 	for range p.Calls {
 		r.cs = append(r.cs, &rpcCallState{})
 	}
@@ -461,6 +474,10 @@ func runRpc(t *testing.T, seed uint64, p *RpcPlan, o RunOpts, extra func(r *rpcR
 	if res.Deadlock {
 		if r.stranded > 0 {
 			rep.violate("F1-bytequeue-lost-wakeup", "deadlock with %d byte queue(s) holding unread data in a later block while the reader is parked without a wake-up token; blocked: %v", r.stranded, res.Blocked)
+			return rep
+		}
+		if p.Faulty {
+			rep.violate("C09-waiter-not-released", "after the transport failure some call never returned: blocked: %v", res.Blocked)
 			return rep
 		}
 		rep.violate("C04-deadlock", "calls did not complete: blocked: %v", res.Blocked)
@@ -554,6 +571,10 @@ func (r *rpcRun) main(extra func(r *rpcRun, clients []rpc.Client, srv rpc.Server
 	r.net = p.Env.install()
 	r.mon = newWireMon(false)
 	r.net.Tap = r.mon.feed
+	if r.tap != nil {
+		mon, tap := r.mon, r.tap
+		r.net.Tap = func(c, d int, b []byte) { mon.feed(c, d, b); tap(c, d, b) }
+	}
 	r.log = newRecLogger()
 	r.bg = async.NewContext()
 	opts := p.Opt.options()
@@ -561,7 +582,9 @@ func (r *rpcRun) main(extra func(r *rpcRun, clients []rpc.Client, srv rpc.Server
 	srv.Start()
 	waitFlag(srv.Listening())
 	var clients []rpc.Client
+	var clientModes []string
 	for _, cp := range p.Clients {
+		clientModes = append(clientModes, cp.Kind)
 		mode := rpc.ClientMode_OnDemand
 		if cp.Kind == "auto" {
 			mode = rpc.ClientMode_AutoConnect
@@ -574,10 +597,30 @@ func (r *rpcRun) main(extra func(r *rpcRun, clients []rpc.Client, srv rpc.Server
 	var g group
 	for id := range p.Calls {
 		id := id
+		if p.Calls[id].Probe {
+			continue
+		}
 		cl := clients[p.Calls[id].Client%len(clients)]
 		g.goTask(fmt.Sprintf("call%d", id), func() { r.clientCall(id, cl) })
 	}
 	g.wait("rpc.join-calls")
+	if p.Faulty {
+		// after the fault: every client must serve a fresh call (the listener is up)
+		simrt.WaitCond("rpc.handlers-released", func() bool { return r.active == 0 })
+		for id := range p.Calls {
+			if !p.Calls[id].Probe {
+				continue
+			}
+			cl := clients[p.Calls[id].Client%len(clients)]
+			if clientModes[p.Calls[id].Client%len(clients)] == "auto" {
+				bound := time.Duration(p.Opt.DialTimeoutMs)*time.Millisecond + 3*time.Second
+				if !waitFlagFor(cl.Connected(), bound) {
+					simrt.Fail("C09-no-reconnect", "the auto-connect rpc client is not connected %v after the fault although the server is listening", bound)
+				}
+			}
+			r.probeCall(id, cl)
+		}
+	}
 	// every issued call's handler must have run (oneway handlers may still be on their way)
 	simrt.WaitCond("rpc.join-handlers", func() bool {
 		if r.p.Faulty {
@@ -596,6 +639,9 @@ func (r *rpcRun) main(extra func(r *rpcRun, clients []rpc.Client, srv rpc.Server
 		simrt.Sleep(100 * time.Millisecond)
 	}
 	simrt.WaitCond("rpc.join-handlers2", func() bool { return r.active == 0 })
+	if r.postNet != nil {
+		r.postNet(r.net)
+	}
 	r.errsAtTeardown, r.panicsAtTeardown = len(r.log.errors), simrt.PanicCount()
 	r.tornDown = true
 	for _, cl := range clients {
@@ -605,6 +651,11 @@ func (r *rpcRun) main(extra func(r *rpcRun, clients []rpc.Client, srv rpc.Server
 	simrt.WaitQuiescent("rpc.teardown")
 	r.bg.Cancel()
 	simrt.WaitQuiescent("rpc.teardown2")
+	if r.p.Faulty {
+		simrt.Sleep(30 * time.Second)
+		simrt.WaitQuiescent("rpc.teardown3")
+		r.leaked = simrt.LiveTasks()
+	}
 }
 
 func (rpcScn) Shrink(plan any) []any { return shrinkRpc(plan.(*RpcPlan)) }
@@ -655,4 +706,29 @@ func shrinkRpc(p *RpcPlan) []any {
 	}
 	out = append(out, shrinkEnv(p, func(q any) *Env { return &q.(*RpcPlan).Env }, func() any { return clone() })...)
 	return out
+}
+
+// probeCall issues the recovery probe: a plain unary call that must succeed (a second
+// attempt is allowed when the first one met a connection that was still dying).
+func (r *rpcRun) probeCall(id int, cl rpc.Client) {
+	s := r.cs[id]
+	for attempt := 0; attempt < 2; attempt++ {
+		req, free := r.buildRequest(id)
+		s.starts = 0
+		res, st := cl.Request(r.bg, req)
+		free()
+		simrt.Logf("probe call%d attempt %d -> %s", id, attempt, stName(st))
+		if st.OK() {
+			r.checkResult(id, res.Unwrap(), st)
+			res.Release()
+			s.cliDone = true
+			return
+		}
+		if res != nil {
+			res.Release()
+		}
+		if attempt == 1 {
+			simrt.Fail("C09-no-recovery", "a fresh unary call after the fault failed twice although the server is reachable: %s", stName(st))
+		}
+	}
 }
